@@ -51,8 +51,8 @@ static char *ares_qcache_calc_key(const ares_dns_record_t *dnsrec)
 
   /* Format is OPCODE|FLAGS[|QTYPE1|QCLASS1|QNAME1]... */
 
-  status = ares_buf_append_str(
-    buf, ares_dns_opcode_tostr(ares_dns_record_get_opcode(dnsrec)));
+  status =
+    ares_buf_append_num_dec(buf, (size_t)ares_dns_record_get_opcode(dnsrec), 0);
   if (status != ARES_SUCCESS) {
     goto fail; /* LCOV_EXCL_LINE: OutOfMemory */
   }
@@ -93,7 +93,9 @@ static char *ares_qcache_calc_key(const ares_dns_record_t *dnsrec)
       goto fail; /* LCOV_EXCL_LINE: OutOfMemory */
     }
 
-    status = ares_buf_append_str(buf, ares_dns_rec_type_tostr(qtype));
+    /* Use the numeric values: types and classes without a name all print as
+     * "UNKNOWN" and would share one cache entry */
+    status = ares_buf_append_num_dec(buf, (size_t)qtype, 0);
     if (status != ARES_SUCCESS) {
       goto fail; /* LCOV_EXCL_LINE: OutOfMemory */
     }
@@ -103,7 +105,7 @@ static char *ares_qcache_calc_key(const ares_dns_record_t *dnsrec)
       goto fail; /* LCOV_EXCL_LINE: OutOfMemory */
     }
 
-    status = ares_buf_append_str(buf, ares_dns_class_tostr(qclass));
+    status = ares_buf_append_num_dec(buf, (size_t)qclass, 0);
     if (status != ARES_SUCCESS) {
       goto fail; /* LCOV_EXCL_LINE: OutOfMemory */
     }
